@@ -461,6 +461,8 @@ class Body:
                 continue
             seen.add(l)
             steps += 1
+            if self.local_name(l):
+                out.add(("local", self.local_name(l)))
             for rec in defs.get(l, ()):
                 if rec[0] == "arg":
                     out.add(("arg", rec[1]))
@@ -540,11 +542,22 @@ class Body:
             return ds[0]
         return None
 
-    def expr(self, x, depth=12, expand_named=False):
+    def expr_top(self, x, expand_named=False, depth=12):
+        """entry point: sets the expansion mode for the whole reconstruction"""
+        old = getattr(self, "_expand", False)
+        self._expand = expand_named
+        try:
+            return self.expr(x, depth, expand_named)
+        finally:
+            self._expand = old
+
+    def expr(self, x, depth=12, expand_named=None):
         """Readable expression for an operand / place / local; temporaries with a single
         definition are expanded.  Used for site keys and definitional checks."""
         if depth <= 0:
             return "…"
+        if expand_named is None:
+            expand_named = getattr(self, "_expand", False)
         if isinstance(x, int):
             return self._expr_local(x, depth, expand_named)
         if "l" in x and "p" in x:
